@@ -1,5 +1,5 @@
 (** C11 — concurrent evaluations on one environment are race-free and isolated. *)
-From Lisp Require Import Base Value Env EnvProofs Lockset LocksetProofs ConcPins.
+From Lisp Require Import Base Value Env EnvProofs Lockset LocksetProofs PinsCommon PinsEnv.
 From Lisp.Gen Require Import ConcActions.
 
 (** RACE FREEDOM OF SCOPES.  On the action lists regenerated from env/env.go at every run: every
@@ -22,7 +22,7 @@ Proof. exact fn_ok_sound. Qed.
 Theorem C11_env_accesses_guarded : forall name code, In (name, code) env_all ->
   exists m, forall tr r, LocksetProofs.run (parse code) tr r ->
     accesses_guarded env_shared (final_table env_shared env_all) (mkL m None) tr.
-Proof. exact env_accesses_guarded. Qed.
+Proof. exact (all_fn_ok_guarded env_shared env_all env_all_fn_ok). Qed.
 
 (** ISOLATION OF LOCAL SCOPES (evaluator model).  A binding goes into exactly one frame; *)
 Theorem C11_write_is_local : forall env key v st o st',
